@@ -1133,6 +1133,10 @@ func (ce *cenv) pseudo(name string, x *ast.CallExpr) (Val, bool) {
 			}
 		}
 		ce.fail(x, "rangeidx: loop is not a range loop over a slice, or is not active here")
+	case "nlmul": // nlmul(a, b): the product of two non-constant integers as executed code computes it (kept uninterpreted)
+		ex.declareFun("nl.mul", []string{sInt, sInt}, sInt)
+		a, b := arg(0), arg(1)
+		return Val{T: a.T, L: []string{app("nl.mul", a.L[0], b.L[0])}}, true
 	case "done": // done(ctx): the context is cancelled / expired in the current state (monotone)
 		return boolVal(sel(ex.ctxDone(ce.st), arg(0).L[1])), true
 	case "cancelled": // cancelled(cancelFn): the context that this context.CancelFunc cancels is done
